@@ -138,6 +138,9 @@ type Config struct {
 	WriteBack   persistedretry.Config
 	Server      blobserver.Config
 	Ring        hashring.Config
+	// ClusterProvider resolves remote origin clusters (replicate-to-remote);
+	// nil = blobclient.NewClusterProvider(), which needs DNS.
+	ClusterProvider blobclient.ClusterProvider
 }
 
 // Origin is one incarnation of an origin process.
@@ -196,8 +199,12 @@ func Build(s *simrt.Sim, cfg Config) (*Origin, error) {
 	if !o.Ring.Contains(cfg.Addr) {
 		return nil, errors.New("origin not in its own ring")
 	}
+	var clusters blobclient.ClusterProvider = blobclient.NewClusterProvider()
+	if cfg.ClusterProvider != nil {
+		clusters = cfg.ClusterProvider
+	}
 	o.Server, err = blobserver.New(cfg.Server, tally.NoopScope, sclock.New(), cfg.Addr, o.Ring, cas,
-		blobclient.NewProvider(), blobclient.NewClusterProvider(), core.PeerContext{}, o.Backends,
+		blobclient.NewProvider(), clusters, core.PeerContext{}, o.Backends,
 		o.Refresher, o.Generator, o.WriteBack)
 	if err != nil {
 		return nil, fmt.Errorf("blobserver: %w", err)
